@@ -13,6 +13,7 @@ import (
 	"github.com/gr33nbl00d/caddy-revocation-validator/core"
 
 	"verif/h/fw"
+	"verif/h/rt/vleveldb"
 	"verif/h/rt/vsched"
 	"verif/h/world"
 )
@@ -165,6 +166,11 @@ func c13Scenarios(disk bool) []*schedScenario {
 			w.Net.Serve(urlA, "v2", c.v2)
 		},
 		Ops: []schedOp{refreshOp(0), cleanupOp(0)},
+		// once both are through, nothing of the validator holds the work_dir any more
+		Post: func(x *schedCtx) string {
+			vsched.Drain()
+			return fmt.Sprintf("open-databases=%d", len(vleveldb.OpenPaths()))
+		},
 	})
 	// s6: config-CRL update (UpdateCRL with fresh chains) || handshake
 	scs = append(scs, &schedScenario{Name: name("s6-configupdate-vs-handshake"),
